@@ -111,7 +111,7 @@ def locus_str(c):
 
 
 def classify(r):
-    k = "signal11" if "unrecognized option" in r.err else r.klass()
+    k = r.klass()
     if k == "diagnostic" and not (r.err.strip() or r.out.strip()):
         return "silent-failure"
     return k
